@@ -6,7 +6,14 @@
 //!             so a stale read returns poison deterministically and addresses are not recycled
 //!  * MOVE   - additionally every `realloc` moves the block (new block, copy, poison + park the old one)
 //!
-//! Correct Rust never reads freed memory, so no mode can change the behaviour of a tree on which the
+//! In every mode a fresh block, and the part a block gains when it grows, is filled with a junk byte
+//! that changes with every allocation of the thread: code that reads memory it never wrote (reserved
+//! capacity of a string, say) then computes with a value that is a deterministic function of the
+//! allocation history - different after a different history, the same when the run is replayed -
+//! instead of with whatever the system allocator left there. (Not under Miri, which reports such a
+//! read itself.)
+//!
+//! Correct Rust never reads freed or unwritten memory, so no mode can change the behaviour of a tree on which the
 //! properties hold. The wrapper also keeps per-thread counters of live blocks/bytes: a ledger that
 //! does not depend on the interpreter's hooks at all.
 
@@ -49,6 +56,25 @@ thread_local! {
     static PARK_PTR: Cell<*mut Parked> = const { Cell::new(std::ptr::null_mut()) };
     static PARK_LEN: Cell<usize> = const { Cell::new(0) };
     static PARK_CAP: Cell<usize> = const { Cell::new(0) };
+    static JUNK: Cell<u64> = const { Cell::new(0) };
+}
+
+/// the junk byte for the next fresh block of this thread
+#[inline]
+fn junk() -> u8 {
+    JUNK.try_with(|c| {
+        let n = c.get().wrapping_add(1);
+        c.set(n);
+        (n.wrapping_mul(0x9E37_79B9_7F4A_7C15) >> 56) as u8
+    })
+    .unwrap_or(0xA5)
+}
+
+#[inline]
+unsafe fn fill(ptr: *mut u8, len: usize) {
+    if !cfg!(miri) && len > 0 {
+        std::ptr::write_bytes(ptr, junk(), len);
+    }
 }
 
 pub struct SimAlloc;
@@ -143,6 +169,7 @@ unsafe impl GlobalAlloc for SimAlloc {
         let p = System.alloc(layout);
         if !p.is_null() {
             count(1, layout.size() as i64);
+            fill(p, layout.size());
         }
         p
     }
@@ -164,6 +191,9 @@ unsafe impl GlobalAlloc for SimAlloc {
                 return new_ptr;
             }
             std::ptr::copy_nonoverlapping(ptr, new_ptr, layout.size().min(new_size));
+            if new_size > layout.size() {
+                fill(new_ptr.add(layout.size()), new_size - layout.size());
+            }
             park(ptr, layout);
             let _ = MOVES.try_with(|c| c.set(c.get() + 1));
             count(0, new_size as i64 - layout.size() as i64);
@@ -172,6 +202,9 @@ unsafe impl GlobalAlloc for SimAlloc {
             let p = System.realloc(ptr, layout, new_size);
             if !p.is_null() {
                 count(0, new_size as i64 - layout.size() as i64);
+                if new_size > layout.size() {
+                    fill(p.add(layout.size()), new_size - layout.size());
+                }
             }
             p
         }
